@@ -483,8 +483,26 @@ class BoolTracker:
                         self.version[x.id] = self.version.get(x.id, 0) + 1
                 self.run(st.body)
             elif isinstance(st, ast.If):
+                # both branches are evaluated from the state before the `if`; a boolean name bound in both is the if-then-else of the two values
+                # (`if m: b = x or y  else: b = x or z`  ==  b = (m and (x or y)) or (not m and (x or z)))
+                before = dict(self.trees)
+                cond = self.tree(st.test) if (self.is_boolish(st.test) or (isinstance(st.test, ast.Name))) else None
                 self.run(st.body)
+                after_body = dict(self.trees)
+                self.trees = dict(before)
                 self.run(st.orelse)
+                after_else = dict(self.trees)
+                merged = {}
+                for nm in set(after_body) | set(after_else):
+                    tb, te = after_body.get(nm), after_else.get(nm)
+                    if tb is not None and te is not None and tb == te:
+                        merged[nm] = tb
+                    elif tb is not None and te is not None and cond is not None:
+                        merged[nm] = ("or", [("and", [cond, tb]), ("and", [("not", [cond]), te])])
+                        if self.history.get(nm):
+                            self.history[nm].append((st, merged[nm]))
+                    # a name defined on one side only is not tracked afterwards
+                self.trees = merged
             elif isinstance(st, ast.With):
                 self.run(st.body)
 
